@@ -65,6 +65,11 @@ def check(ctx):
     for f in tx:
         check_retry(ctx, P, f)
         check_offline_reset(ctx, P, f)
+    # a non-transmitting exit zeroes the retry counter: it must not happen while a retry sequence can be pending, i.e. only for the
+    # enumerated reasons of C07.a (Offline verdict, no-retry-while-Offline, nothing configured to send) - otherwise an unanswered
+    # request is transmitted more than 1 + max_retry_limit times and the Offline verdict is postponed without bound (seed C08-14)
+    from rules import C07
+    rule.import_clauses(ctx, "C07", lambda s_: [C07.check_polls(s_, P, f) for f in tx], clauses=("a.polls",), as_clause="a.retry")
     # the retry counter (which also selects "new message cycle" vs. "retransmission" and drives the Offline verdict) belongs to the
     # request/reply cycle: nothing but the transmit and reply handlers may write it
     wr = sorted({u["fn"].name for u in mut_uses_of_field(P, CR, "retry_count", "u8") if u["kind"] in ("assign", "refmut", "calldest") and not u["fn"].j.get("derived")})
